@@ -14,6 +14,23 @@ fn main() {
     if args.len() >= 3 && args[1] == "--c13-child" {
         c13::child_main(&args[2]);
     }
+    if args.len() >= 2 && args[1] == "--list-codecs" {
+        for t in targets::targets() {
+            println!("{} {}", t.name, if t.law_b { "canonical" } else { "roundtrip" });
+        }
+        return;
+    }
+    if args.len() >= 3 && args[1] == "--dump-seeds" {
+        // one directory per codec, one file per encoder-produced seed (fuzz starting corpora)
+        for t in targets::targets() {
+            let d = std::path::Path::new(&args[2]).join(t.name);
+            std::fs::create_dir_all(&d).expect("mkdir");
+            for (i, s) in t.seeds.iter().enumerate() {
+                std::fs::write(d.join(format!("seed-{i:03}")), s).expect("write seed");
+            }
+        }
+        return;
+    }
     vkit::main(vec![
         Property {
             id: "C12",
